@@ -13,6 +13,8 @@
 (***************************************************************************)
 EXTENDS YPathParser
 
+CONSTANT RegexFixed    \* TRUE: the repaired SearchTerms.__str__ (fix: commit); FALSE: the pinned one
+
 \* value.replace(sym, "\"+sym) except where already preceded by a backslash
 RECURSIVE EscOne(_, _)
 EscOne(s, sym) ==
@@ -29,8 +31,15 @@ StrSyms(sepc) == <<sepc, "(", ")", "[", "]", "^", "$", "%", " ", "'", "\"">>
 SecSyms(sepc) == <<"\\", sepc, "(", ")", "[", "]", "^", "$", "%", " ", "'", "\"">>
 EscapeSection(s, sepc) == EnsureEscaped(s, SecSyms(sepc))
 
+\* SearchTerms.__str__; the RegEx delimiter is the first candidate the expression lacks
+\* (fix: commit; the pinned source always used "/" and rewrote "/" as "\/")
+RegexDelims == <<"/", "#", "|", "@", ";">>
+RegexDelim(t) == LET C == {i \in 1..Len(RegexDelims) : ~HasChar(t, RegexDelims[i])} IN
+                 IF C = {} THEN "/" ELSE RegexDelims[CHOOSE i \in C : \A j \in C : i <= j]
 SearchStr(sg) ==
-  LET safe == IF sg.op = "=~" THEN "/" \o Replace(sg.term, "/", "\\/") \o "/"
+  LET safe == IF sg.op = "=~" THEN
+                 (IF RegexFixed THEN RegexDelim(sg.term) \o sg.term \o RegexDelim(sg.term)
+                  ELSE "/" \o Replace(sg.term, "/", "\\/") \o "/")
               ELSE EscOne(sg.term, " ")
   IN "[" \o sg.attr \o (IF sg.inv THEN "!" ELSE "") \o sg.op \o safe \o "]"
 KeywordStr(sg) == "[" \o (IF sg.inv THEN "!" ELSE "") \o sg.kw \o "(" \o sg.v \o ")]"
@@ -67,22 +76,36 @@ EscAll(s, specials) == IF s = "" THEN "" ELSE
 \* inside [...]: only these act: quotes, backslash, space, brackets, parentheses (after text), operators (before an operator is set)
 TermSpecials == {"\\", " ", "'", "\"", "[", "]", "(", ")", "=", "^", "$", "%", "!", ">", "<", "~"}
 
-RECURSIVE WriteAcc(_, _, _, _)
-WriteAcc(segs, sepc, first, acc) ==
+\* Quoting a key protects the separator, blanks and "*" (README: demarcation for
+\* dotted keys); every other significant character still needs its backslash.
+QuoteSpecials(sepc) == KeySpecials(sepc) \ {sepc, " ", "*", ".", "/"}
+WriteKey(k, sepc, style, first) ==
+  IF style = "quote" \/ HasChar(k, "*") THEN "'" \o EscAll(k, QuoteSpecials(sepc)) \o "'"
+  ELSE LET e == EscAll(k, KeySpecials(sepc)) IN
+       \* a dot-notation path must not begin with "/" (that selects slash notation)
+       IF first /\ sepc = "." /\ StartsWith(e, "/") THEN "\\" \o e ELSE e
+WriteTerm(t) == EscAll(t, TermSpecials)
+
+\* the text of one segment without its leading separator; `first`: it starts the path
+Piece(sg, sepc, style, first) ==
+  IF sg.ty = "KEY" THEN WriteKey(sg.v, sepc, style, first)
+  ELSE IF sg.ty \in {"INDEX", "SLICE"} THEN "[" \o sg.v \o "]"
+  ELSE IF sg.ty = "MATCH_ALL" THEN "*"
+  ELSE IF sg.ty = "TRAVERSE" THEN "**"
+  ELSE IF sg.ty = "ANCHOR" THEN (IF first THEN "&" \o sg.v ELSE "[&" \o sg.v \o "]")
+  ELSE IF sg.ty = "SEARCH" THEN
+     "[" \o EscAll(sg.attr, TermSpecials \cup {"&"}) \o (IF sg.inv THEN "!" ELSE "") \o sg.op
+         \o (IF sg.op = "=~" THEN RegexDelim(sg.term) \o sg.term \o RegexDelim(sg.term) ELSE WriteTerm(sg.term)) \o "]"
+  ELSE IF sg.ty = "KEYWORD" THEN KeywordStr(sg)
+  ELSE CollectorStr(sg)
+NeedsSep(sg) == sg.ty \in {"KEY", "MATCH_ALL", "TRAVERSE"}
+
+RECURSIVE WriteAcc(_, _, _, _, _)
+WriteAcc(segs, sepc, style, first, acc) ==
   IF Len(segs) = 0 THEN acc
-  ELSE LET sg == segs[1]
-           sp == IF first THEN "" ELSE sepc
-           piece ==
-             IF sg.ty = "KEY" THEN sp \o EscAll(sg.v, KeySpecials(sepc))
-             ELSE IF sg.ty \in {"INDEX", "SLICE"} THEN "[" \o sg.v \o "]"
-             ELSE IF sg.ty = "MATCH_ALL" THEN sp \o "*"
-             ELSE IF sg.ty = "TRAVERSE" THEN sp \o "**"
-             ELSE IF sg.ty = "ANCHOR" THEN (IF first THEN "&" \o sg.v ELSE "[&" \o sg.v \o "]")
-             ELSE IF sg.ty = "SEARCH" THEN
-                "[" \o EscAll(sg.attr, TermSpecials) \o (IF sg.inv THEN "!" ELSE "") \o sg.op
-                    \o (IF sg.op = "=~" THEN "/" \o sg.term \o "/" ELSE EscAll(sg.term, TermSpecials)) \o "]"
-             ELSE IF sg.ty = "KEYWORD" THEN KeywordStr(sg)
-             ELSE CollectorStr(sg)
-       IN WriteAcc(Tail(segs), sepc, FALSE, acc \o piece)
-Write(segs, sepc) == WriteAcc(segs, sepc, TRUE, IF sepc = "/" THEN "/" ELSE "")
+  ELSE LET sg == segs[1] IN
+       WriteAcc(Tail(segs), sepc, style, FALSE,
+                acc \o (IF ~first /\ NeedsSep(sg) THEN sepc ELSE "") \o Piece(sg, sepc, style, first))
+WriteStyled(segs, sepc, style) == WriteAcc(segs, sepc, style, TRUE, IF sepc = "/" THEN "/" ELSE "")
+Write(segs, sepc) == WriteStyled(segs, sepc, "esc")
 =============================================================================
